@@ -95,8 +95,14 @@ for _pid, _t in {
     'C16': 'Syntactic flow proof that names are used as labels only; the relation between two renamed runs is checked natively (bounded).',
 }.items():
     TEXT[_pid] = dict(text=_t, design_ref=f'DESIGN.md section 4 ({_pid})', note='Trusted: pyvc (A-PY, A-REAL, A-FRAME), library contracts in pyvc/lib.py; bounded parts never counted as proved.', technique=_PB)
-TEXT['C14'] = dict(text='Bounded exploration of call sequences (all sequences up to length 3-4 over the ten operations on four scenes).', design_ref='DESIGN.md section 4 (C14)',
-                   note='bounded only at this commit', technique='bounded run-time check of the typestate protocol (deductive part pending)')
-TEXT['C15'] = dict(text='Bounded exploration of defect combinations on the input checker.', design_ref='DESIGN.md section 4 (C15)', note='bounded only at this commit',
-                   technique='bounded run-time check (deductive part pending)')
+TEXT['C14'] = dict(text=('Typestate protocol proved for call sequences of any length: each of the ten operations is executed (real AST, skeleton mode, '
+                         'callees by typestate contract) from each typestate; refusals are exact and leave all ghost versions unchanged, completions '
+                         'write only their own id column / table.  Content-level canonicity of repeated stages is explored on bounded call sequences.'),
+                   design_ref='DESIGN.md section 4 (C14)', note='Trusted: skeleton abstraction (opaque pure values, A-LIBPURE), A-DET, A-PRMS; one listed known finding (isolation flags after re-slicing).',
+                   technique='contract-based deductive verification: typestate contracts + ghost write-versions, path enumeration over the real ASTs; bounded run for contents')
+TEXT['C15'] = dict(text=('Unbounded proof over abstract input frames (symbolic number of rows, uninterpreted cell values and per-column coercion functions): the '
+                         'real check_data_consistency raises AmpycloudError exactly under the documented conditions evaluated on the coerced '
+                         'required columns, else returns a fresh normalised frame and never writes its argument; idempotence on conforming frames.'),
+                   design_ref='DESIGN.md section 4 (C15)', note='Trusted: skeleton abstraction, assumed pandas contracts of the input-frame dialect (conformance-checked by the bounded run), A-FRAME.',
+                   technique='contract-based deductive verification: exact raise conditions and postconditions over an abstract input frame, z3')
 NA = {}
